@@ -85,7 +85,7 @@ func vh_C08_authonly_groups() { vC08Authonly([]string{"allowed_groups"}, false) 
 // verif: unwind=8 strlen=8 concretize=4
 func vh_C08_authonly_emails() { vC08Authonly([]string{"allowed_emails"}, false) }
 
-// verif: unwind=8 strlen=8 concretize=4 paths=40000 tiers=thorough
+// verif: unwind=8 strlen=8 concretize=4 paths=40000 tiers=thorough tstrlen=10 tunwind=10
 func vh_C08_authonly_domains() {
 	vC08Authonly([]string{"allowed_email_domains"}, true)
 }
